@@ -29,6 +29,44 @@ class Inconclusive(Exception):
     pass
 
 
+class RepoCrash(Exception):
+    """The code under check (code of /repo, not the harness) panicked while a scenario was running on it."""
+
+    def __init__(self, msg, frame, cmd, out, subst=None):
+        Exception.__init__(self, "%s in %s" % (msg, frame))
+        self.msg, self.frame, self.cmd, self.out, self.subst = msg, frame, list(cmd), out, dict(subst or {})
+
+
+_RUNTIME_FRAMES = ("runtime.", "runtime/", "panic(", "sync.", "sync/", "reflect.", "internal/", "testing.", "os.", "syscall.")
+
+
+def repo_panic(out):
+    """(message, function) if `out` holds a Go panic whose first frame outside the Go runtime and third-party libraries is a
+    function of the repository under check; None if there is no panic or if it is the harness's own."""
+    m = None
+    for m in re.finditer(r"^(panic: .*|fatal error: concurrent map .*)$", out, re.M):
+        break
+    if not m:
+        return None
+    rest = out[m.end():]
+    g = re.search(r"^goroutine \d+ \[running\]:\n", rest, re.M)   # gopanic stacks come first for `panic:`
+    if not g:
+        return None
+    for ln in rest[g.end():].splitlines():
+        if not ln.strip():
+            break
+        if ln.startswith(("\t", " ")) or ln.startswith("created by "):
+            continue
+        fn = ln.strip()
+        if fn.startswith(_RUNTIME_FRAMES):
+            continue
+        if fn.startswith("github.com/AliceO2Group/Control/"):
+            return (m.group(1)[:200], re.sub(r"\([^()]*\)$", "", fn)[:160])
+        if fn.startswith(("verif/harness", "main.")):
+            return None
+    return None
+
+
 class TlcResult:
     def __init__(self, out, rc, wall):
         self.out = out
@@ -238,6 +276,9 @@ class Ctx:
         except subprocess.TimeoutExpired:
             raise Inconclusive("harness timeout: %s" % " ".join(cmd[:3]))
         if p.returncode not in ok_codes:
+            crash = repo_panic(p.stdout)
+            if crash:
+                raise RepoCrash(crash[0], crash[1], cmd, p.stdout)
             raise Inconclusive("harness failed rc=%d: %s: %s" % (p.returncode, " ".join(cmd[:3]), tail(p.stdout, 30)))
         return p.stdout
 
@@ -288,6 +329,45 @@ class Ctx:
             v["replay"] = os.path.join("evidence", "replays", self.pid, name)
         self.violations.append(v)
         return "new"
+
+    def add_crash(self, e):
+        """The code under check panicked under a scenario of this check: whatever the property promises for that scenario (an
+        answer, a state, a delivery) did not happen.  The replay object re-runs the same driver on the same scenarios."""
+        files = {}
+        cmd = []
+        for a in e.cmd:
+            if isinstance(a, str) and os.path.isfile(a) and not a.startswith(os.path.join(self.work, "bin")) \
+                    and os.path.getsize(a) < 8 << 20:
+                files[os.path.basename(a)] = open(a).read()
+                cmd.append("{file:%s}" % os.path.basename(a))
+            elif isinstance(a, str) and a.startswith(self.work):
+                cmd.append("{work}" + a[len(self.work):])
+            else:
+                cmd.append(a)
+        self.add_violation({"inv": "NoCrash", "panic": e.msg, "frame": e.frame, "cause": "panic"},
+                           replay_obj={"kind": "crash", "binary": os.path.basename(e.cmd[0]), "cmd": cmd, "files": files,
+                                       "output_tail": tail(e.out, 40)})
+
+    def replay_crash(self, obj):
+        binp = self.build(obj["binary"].replace("_race", ""), race=obj["binary"].endswith("_race"))
+        cmd = [binp]
+        for a in obj["cmd"][1:]:
+            if a.startswith("{file:"):
+                name = a[6:-1]
+                fp = self.path("replay_in", name)
+                with open(fp, "w") as fh:
+                    fh.write(obj["files"][name])
+                cmd.append(fp)
+            elif a.startswith("{work}"):
+                fp = self.work + a[6:]
+                os.makedirs(os.path.dirname(fp), exist_ok=True)
+                cmd.append(fp)
+            else:
+                cmd.append(a)
+        try:
+            self.run(cmd, timeout=3000)
+        except RepoCrash as e:
+            self.add_crash(e)
 
     def sample(self, obj, limit=6):
         if len(self.samples) < limit:
